@@ -234,8 +234,8 @@ func (ef *Effects) ParseRegion(m string, from *types.Package) ([]string, error) 
 			return nil, err
 		}
 		es := ef.tm.SortOf(t)
-		ef.regionSorts[elemsKey(es)] = elemsSort(es)
-		return []string{elemsKey(es)}, nil
+		ef.regionSorts[ef.tm.ElemsKey(t)] = elemsSort(es)
+		return []string{ef.tm.ElemsKey(t)}, nil
 	case strings.HasPrefix(m, "map["):
 		t, err := ef.prog.LookupType(m, from)
 		if err != nil {
@@ -296,7 +296,7 @@ func (w *effWalker) region(key string, s Sort) {
 
 func (w *effWalker) elems(t types.Type) {
 	es := w.ef.tm.SortOf(t)
-	w.region(elemsKey(es), elemsSort(es))
+	w.region(w.ef.tm.ElemsKey(t), elemsSort(es))
 }
 
 func (w *effWalker) mapRegs(mt *types.Map) {
